@@ -21,6 +21,11 @@ type c12Task struct {
 	Delay   int  `json:"delay"` // yields before NewChannel
 	Pause   int  `json:"pause"` // yields between rounds
 	NoClose bool `json:"no_close,omitempty"`
+	// Trailing: after the last response the peer sends this many more packages on the task's channel, which the
+	// client does not wait for: they race the channel's Close (at most the queue size, or Close would meet the
+	// listed full-queue deadlock of C13).
+	Trailing int `json:"trailing,omitempty"`
+	// Long: many rounds on one channel so that its packet numbers wrap around.
 }
 
 type c12Plan struct {
@@ -66,6 +71,19 @@ func (c12) Gen(r *Rand, idx int, tier string) interface{} {
 		p.Tasks = append(p.Tasks, t)
 	}
 	p.QueueSize = Pick(r, []int{1, 2, 3, 5, 100})
+	for i := range p.Tasks {
+		if r.Pct(30) && p.Tasks[i].Rounds > 0 {
+			p.Tasks[i].Trailing = 1 + r.Intn(2)
+			if p.Tasks[i].Trailing > p.QueueSize {
+				p.Tasks[i].Trailing = p.QueueSize
+			}
+		}
+	}
+	if r.Pct(4) {
+		// one long-lived channel: more than 256 packets, so the packet numbers wrap
+		p.Tasks = p.Tasks[:1]
+		p.Tasks[0] = c12Task{Rounds: 270 + r.Intn(60), Pkgs: 0}
+	}
 	p.BodySize = Pick(r, []int{1, 5, 9, 18, 504})
 	total := 0
 	for _, t := range p.Tasks {
@@ -204,6 +222,7 @@ func (c12) Run(plan interface{}, schedSeed uint64, replay []simrt.Choice, lenien
 	}
 	nmsgs := 0
 	unknownSent := 0
+	trailingSent := 0
 	pr.OnPacket = func(pk peer.RecvPacket) {
 		c := pk.H.Channel
 		ci := chans[c]
@@ -269,6 +288,15 @@ func (c12) Run(plan interface{}, schedSeed uint64, replay []simrt.Choice, lenien
 		}
 		body = append(body, peer.Done(0, 0, 0)...)
 		enqueue(m.Channel, peer.Packetise(body, peer.CutsBySize(len(body), p.BodySize), peer.BufResponse, m.Channel, true))
+		if task >= 1 && task <= len(p.Tasks) && round == p.Tasks[task-1].Rounds-1 && p.Tasks[task-1].Trailing > 0 {
+			var tb []byte
+			for k := 0; k < p.Tasks[task-1].Trailing; k++ {
+				tb = append(tb, peer.Done(0x11, 0, c12Marker(task, round+1, k))...)
+			}
+			trailingSent += p.Tasks[task-1].Trailing
+			s.Fault("late-packet-racing-close")
+			enqueue(m.Channel, peer.Packetise(tb, nil, peer.BufResponse, m.Channel, false))
+		}
 	}
 
 	// ---- clients ----
@@ -448,10 +476,18 @@ func (c12) Run(plan interface{}, schedSeed uint64, replay []simrt.Choice, lenien
 			}
 		}
 	}
-	if v.Class == "" && totalInvalid != unknownSent {
-		v.Violate("invalid-channel-report", "unknown-channel packets not reported exactly once", "%d packets for a non-existing channel were injected, %d 'invalid channel' connection errors surfaced", unknownSent, totalInvalid)
+	// a late packet that reaches the connection after its channel was removed is reported like an unknown-channel packet
+	trailingPackets := 0
+	for _, t := range p.Tasks {
+		if t.Trailing > 0 && t.Rounds > 0 {
+			trailingPackets++
+		}
+	}
+	if v.Class == "" && (totalInvalid < unknownSent || totalInvalid > unknownSent+trailingPackets) {
+		v.Violate("invalid-channel-report", "unknown-channel packets not reported exactly once", "%d packets for a non-existing channel were injected (plus %d late packets that may meet a closed channel), %d 'invalid channel' connection errors surfaced", unknownSent, trailingPackets, totalInvalid)
 	}
 	_ = connCloseErr
+	_ = trailingSent
 	if concurrentSetup {
 		v.Probe("concurrent-newchannel-or-close")
 	}
